@@ -117,6 +117,14 @@ func (mw *Middleware) Wrap(next dnsserver.Handler) (wrapped dnsserver.Handler) {
 		fctx := mw.newFilteringContext(req)
 		defer mw.fltCtxPool.Put(fctx)
 
+		if fctx.isDebug {
+			// The class of a debug request has been rewritten in place.  Give
+			// the request back to the server as the client has sent it, so that
+			// a response that the server builds itself, for example a SERVFAIL
+			// when this handler fails, carries the client's question.
+			defer func() { req.Question[0].Qclass = dns.ClassCHAOS }()
+		}
+
 		ri := agd.MustRequestInfoFromContext(ctx)
 		optslog.Debug2(
 			ctx,
